@@ -92,6 +92,10 @@ func extProblem(c *xcase, crt *x509.Certificate) (problem string, ok bool) {
 	}
 	var got *pcs.PckExtensions
 	var err error
+	var rawCopy []byte
+	if len(crt.Raw) > 0 {
+		rawCopy = append([]byte(nil), crt.Raw...)
+	}
 	if pv, st := mon.Guard(func() { got, err = pcs.PckCertificateExtensions(crt) }); pv != "" {
 		return "PckCertificateExtensions panics: " + pv + "\n" + st, false
 	}
@@ -104,23 +108,36 @@ func extProblem(c *xcase, crt *x509.Certificate) (problem string, ok bool) {
 		if d := compareExt(got, c.P, nil); d != "" {
 			return "extracted value differs from what the extension encodes: " + d, ok
 		}
-		// the result is the caller's: scribbling over it changes nothing for the next extraction from the same certificate
-		for i := range got.TCB.CPUSvn {
-			got.TCB.CPUSvn[i] ^= 0xff
-		}
-		for i := range got.TCB.CPUSvnComponents {
-			got.TCB.CPUSvnComponents[i] ^= 0xff
-		}
-		got.TCB.PCESvn, got.FMSPC, got.PCEID, got.PPID = ^got.TCB.PCESvn, "scribbled", "scribbled", "scribbled"
-		var again *pcs.PckExtensions
-		if pv, st := mon.Guard(func() { again, err = pcs.PckCertificateExtensions(crt) }); pv != "" {
-			return "second extraction from the same certificate panics: " + pv + "\n" + st, false
-		}
-		if err != nil {
-			return "second extraction from the same certificate fails: " + err.Error(), false
-		}
-		if d := compareExt(again, c.P, nil); d != "" {
-			return "after the caller overwrote the first result, a second extraction from the same certificate returns: " + d + " (results share memory)", ok
+		// the result is the caller's: overwriting it changes nothing for an extraction from ANOTHER parse of the same certificate
+		// bytes (the result may legitimately share memory with the certificate object it was extracted from — encoding/asn1
+		// hands out sub-slices of its input — so the copy of the DER is taken before the first extraction)
+		if rawCopy != nil {
+			for i := range got.TCB.CPUSvn {
+				got.TCB.CPUSvn[i] ^= 0xff
+			}
+			for i := range got.TCB.CPUSvnComponents {
+				got.TCB.CPUSvnComponents[i] ^= 0xff
+			}
+			got.TCB.PCESvn, got.FMSPC, got.PCEID, got.PPID = ^got.TCB.PCESvn, "scribbled", "scribbled", "scribbled"
+			defer func() { // put the bytes back: they may be the certificate object's own memory, and the harness uses it again
+				for i := range got.TCB.CPUSvn {
+					got.TCB.CPUSvn[i] ^= 0xff
+				}
+			}()
+			crt2, perr := x509.ParseCertificate(rawCopy)
+			if perr != nil {
+				return "", ok
+			}
+			var again *pcs.PckExtensions
+			if pv, st := mon.Guard(func() { again, err = pcs.PckCertificateExtensions(crt2) }); pv != "" {
+				return "extraction from a second parse of the same certificate panics: " + pv + "\n" + st, false
+			}
+			if err != nil {
+				return "extraction from a second parse of the same certificate fails: " + err.Error(), false
+			}
+			if d := compareExt(again, c.P, nil); d != "" {
+				return "after the caller overwrote the first result, an extraction from a fresh parse of the same certificate bytes returns: " + d + " (results of different calls share memory)", ok
+			}
 		}
 	case "error":
 		if err == nil {
